@@ -303,7 +303,12 @@ pub fn run_shard(check: &dyn Check, o: &Opts) -> i32 {
                 .unwrap_or_else(|| "non-string panic".into());
             // A panic that escaped a case is a harness-level failure unless the check classifies
             // target panics itself (checks wrap target calls in their own catch_unwind).
-            if report.inconclusive.len() < 20 {
+            if index >= LANE_BASE {
+                // the real-network lane is supplementary: a case that could not be completed judges nothing
+                *report.counters.entry("realnet:abandoned:harness-panic".into()).or_default() += 1;
+                *report.counters.entry("realnet:cases-abandoned".into()).or_default() += 1;
+                eprintln!("real-network lane case {index} abandoned: harness panic: {msg}");
+            } else if report.inconclusive.len() < 20 {
                 report.inconclusive.push(format!("case {index}: harness panic: {msg}"));
             }
         }
@@ -588,6 +593,14 @@ fn finish(check: &dyn Check, o: &Opts, merged: Report, mut inconclusive: Vec<Str
     coverage.insert("cases_planned".into(), json!(planned));
     coverage.insert("distinct_nontrivial_floor".into(), json!(floor));
     coverage.insert("counters".into(), json!(merged.counters));
+    if check.lane_cases(o.tier) > 0 {
+        let g = |k: &str| merged.counters.get(k).copied().unwrap_or(0);
+        coverage.insert(
+            "real_network_lane".into(),
+            json!({"cases_planned": check.lane_cases(o.tier), "networks_formed": g("realnet:networks-formed"), "real_nodes_started": g("realnet:nodes-started"), "cases_abandoned_without_verdict": g("realnet:cases-abandoned") + g("realnet:abandoned:formation"),
+                   "note": "supplementary lane: real nodes with their own event loops on loopback; a case that cannot be completed (network not formed, watchdog) is abandoned and judges nothing; its counters are not required for the run to count"}),
+        );
+    }
     coverage.insert("exhaustive".into(), json!(check.exhaustive(o.tier) && merged.counters.get("cases_skipped_by_time_budget").copied().unwrap_or(0) == 0));
     coverage.insert("known_findings_reproduced".into(), json!(known_hit.keys().collect::<Vec<_>>()));
     coverage.insert("inconclusive".into(), json!(inconclusive));
